@@ -135,8 +135,7 @@ async fn dht_script(wi: u64, mut rng: Rng) -> anyhow::Result<(Vec<Ev>, Vec<Optio
             known_ids.push((idx, uuid, pi));
             evs.push(Ev::Send(idx, pi as u64 + 1, now, T_MS)); obs.push(None);
             // (on a badly overloaded machine the request may already have timed out before we look)
-            let sz = c.m.manager.verif_active_operations_len() as u64;
-            sizes.push(if reqs.last().map(|r| r.task.is_finished()).unwrap_or(true) { 999999 } else { sz });
+            sizes.push(dsize(&c, &reqs));
             if std::env::var("C04_DEBUG").is_ok() && reqs.last().map(|r| r.task.is_finished()).unwrap_or(false) {
                 let r = reqs.last_mut().unwrap(); let res = (&mut r.task).await; eprintln!("early finish: {:?}", res); r.alive = false;
             }
@@ -242,6 +241,13 @@ fn coq_rout(o: &ROut) -> String {
 
 struct RPending { idx: u64, uuid: String, deadline: Instant, task: tokio::task::JoinHandle<Result<Vec<u8>, String>>, alive: bool }
 
+async fn rsize(c: &Ctx, reqs: &[RPending]) -> u64 {
+    let soon = Instant::now() + Duration::from_millis(80);
+    if reqs.iter().any(|r| r.alive && (r.task.is_finished() || r.deadline < soon)) { return 999999; }
+    let n = c.m.transport.verif_active_requests_len().await as u64;
+    if reqs.iter().any(|r| r.alive && r.task.is_finished()) { 999999 } else { n }
+}
+
 /// the /rr/ table script.  `flood`: fill the table to its cap first.
 async fn rr_script(wi: u64, mut rng: Rng, flood: bool, cancel_flood: bool) -> anyhow::Result<(Vec<REv>, Vec<ROut>, Vec<u64>, serde_json::Value)> {
     let c = setup(wi, &mut rng).await?;
@@ -291,13 +297,13 @@ async fn rr_script(wi: u64, mut rng: Rng, flood: bool, cancel_flood: bool) -> an
                 let msg = match r { Ok(Err(e)) => e, other => format!("{other:?}") };
                 evs.push(REv::Send(idx, pi as u64 + 1));
                 obs.push(if msg.contains("Too many active requests") { ROut::Refused(idx) } else { ROut::None });
-                sizes.push(c.m.transport.verif_active_requests_len().await as u64);
+                sizes.push(rsize(&c, &reqs).await);
             } else {
                 let uuid = c.net.rr_ids.lock().unwrap()[wire_before].clone();
                 reqs.push(RPending { idx, uuid: uuid.clone(), deadline: Instant::now() + timeout, task, alive: true });
                 known.push((idx, uuid, pi));
                 evs.push(REv::Send(idx, pi as u64 + 1)); obs.push(ROut::None);
-                sizes.push(c.m.transport.verif_active_requests_len().await as u64);
+                sizes.push(rsize(&c, &reqs).await);
             }
         } else if choice <= 8 {
             let (mid, uuid, right_peer) = if rng.chance(1, 6) {
@@ -330,24 +336,24 @@ async fn rr_script(wi: u64, mut rng: Rng, flood: bool, cancel_flood: bool) -> an
             obs.push(completed.clone());
             match completed {
                 ROut::Complete(i, _) => { sizes.push(999999); evs.push(REv::Finish(i)); obs.push(ROut::None); sizes.push(999999); }
-                _ => sizes.push(if timed_out.is_empty() { c.m.transport.verif_active_requests_len().await as u64 } else { 999999 }),
+                _ => sizes.push(if timed_out.is_empty() { rsize(&c, &reqs).await } else { 999999 }),
             }
             for i in timed_out { evs.push(REv::Finish(i)); obs.push(ROut::None); sizes.push(999999); }
-            if let Some(l) = sizes.last_mut() { *l = c.m.transport.verif_active_requests_len().await as u64; }
+            if let Some(l) = sizes.last_mut() { *l = rsize(&c, &reqs).await; }
         } else if choice == 9 && !live.is_empty() && !flood {
             let i = live[0];
             let res = tokio::time::timeout(Duration::from_secs(6), &mut reqs[i].task).await;
             reqs[i].alive = false;
             if let Ok(Ok(Ok(_))) = res { anyhow::bail!("rr request completed without a delivery"); }
             evs.push(REv::Finish(reqs[i].idx)); obs.push(ROut::None);
-            sizes.push(c.m.transport.verif_active_requests_len().await as u64);
+            sizes.push(rsize(&c, &reqs).await);
         } else if choice >= 10 && !live.is_empty() {
             let i = live[rng.below(live.len() as u64) as usize];
             reqs[i].task.abort(); reqs[i].alive = false;
             let _ = (&mut reqs[i].task).await;
             tokio::time::sleep(Duration::from_millis(5)).await;
             evs.push(REv::Cancel(reqs[i].idx)); obs.push(ROut::None);
-            sizes.push(c.m.transport.verif_active_requests_len().await as u64);
+            sizes.push(rsize(&c, &reqs).await);
         }
         if flood && cancel_flood && step == 255 {
             // drop every pending future, then keep sending: the table must have room again
@@ -356,7 +362,7 @@ async fn rr_script(wi: u64, mut rng: Rng, flood: bool, cancel_flood: bool) -> an
                 evs.push(REv::Cancel(r.idx)); obs.push(ROut::None); sizes.push(999999);
             }
             tokio::time::sleep(Duration::from_millis(20)).await;
-            if let Some(l) = sizes.last_mut() { *l = c.m.transport.verif_active_requests_len().await as u64; }
+            if let Some(l) = sizes.last_mut() { *l = rsize(&c, &reqs).await; }
         }
     }
     for r in reqs.iter_mut().filter(|r| r.alive) {
@@ -365,7 +371,7 @@ async fn rr_script(wi: u64, mut rng: Rng, flood: bool, cancel_flood: bool) -> an
         obs.push(ROut::None); sizes.push(999999);
     }
     tokio::time::sleep(Duration::from_millis(20)).await;
-    if let Some(l) = sizes.last_mut() { *l = c.m.transport.verif_active_requests_len().await as u64; }
+    if let Some(l) = sizes.last_mut() { *l = rsize(&c, &reqs).await; }
     let n = evs.len();
     let desc = json!({"kind": if flood { "rr-table-flood" } else { "rr-table" }, "n_events": n,
         "events": evs.iter().take(40).map(coq_rev).collect::<Vec<_>>(), "observed": obs.iter().take(40).map(coq_rout).collect::<Vec<_>>(),
